@@ -1,6 +1,6 @@
 CONSTANTS Graphs = {"line", "tri", "dead", "selfl", "pair", "star4", "ring4"} T = 4 QE = {0, 1, 2, 3} QN = {0, 1, 2} NodeModes = {TRUE, FALSE} NEs = {TRUE, FALSE}
   Widths = {0, 1, 2} Cuts = {"none", "dist", "init", "prob", "both"} MaxOps = 3 SAMPLE = 6 Moves = {"m11", "m12"} EMIT = FALSE
-  ExhGraphs = {} Debugs = {FALSE}
+  ExhGraphs = {} Debugs = {FALSE} REUSE = FALSE
 SPECIFICATION Spec
 INVARIANT C02
 CHECK_DEADLOCK FALSE
